@@ -31,3 +31,11 @@ package keyformat
 //@   props C13
 //@   requires f != nil && 0 <= f.length && f.length <= 1048576
 //@   ensures n == 1 + f.length
+
+// the general (reflective) formatter is not under contract: callers see only its write set
+//@ func (*KeyFormat).Scan(kf, key, args)
+//@   summary
+//@ func (*KeyFormat).Key(kf, args) (k)
+//@   summary
+//@ func (*KeyFormat).KeyBytes(kf, segments) (k)
+//@   summary
